@@ -110,13 +110,24 @@ func engCodecRT(seed int64, tier string, _ []string, out *sx.Out) {
 	tooLong := strings.Repeat("y", 65536)
 	multi := strings.Repeat("世", 21845) // 65535 bytes of three-byte characters
 	for _, v := range []byte{3, 4, 5} {
-		for _, s := range []string{"", "a", long, multi, tooLong, "\U0001F600", "a\x00b", "\xff"} {
+		strs := []string{"", "a", strings.Repeat("x", 300), strings.Repeat("世", 100), "\U0001F600", "a\x00b", "\xff"}
+		if thorough {
+			strs = append(strs, long, multi, tooLong)
+		} else if v == 5 {
+			strs = append(strs, long) // the maximum length once per run; every version in the thorough tier
+		} else if v == 4 {
+			strs = append(strs, tooLong)
+		}
+		for _, s := range strs {
 			pk := &packets.Packet{ProtocolVersion: v, FixedHeader: packets.FixedHeader{Type: packets.Publish, Qos: 1}, PacketID: 65535, TopicName: s, Payload: []byte("p")}
 			pk.Mods.AllowResponseInfo = true
 			pk.Properties.ContentType = s
 			pk.Properties.User = []packets.UserProperty{{Key: s, Val: "v"}, {Key: "k", Val: s}}
 			pk.Properties.CorrelationData = []byte(s)
 			out.Case(rtCase(pk))
+			if len(s) > 1000 && !thorough && v != 5 {
+				continue // the model evaluates ~0.5 s per maximum-length packet: one of each kind in the quick tier
+			}
 			sub := &packets.Packet{ProtocolVersion: v, FixedHeader: packets.FixedHeader{Type: packets.Subscribe, Qos: 1}, PacketID: 1,
 				Filters: packets.Subscriptions{{Filter: s, Qos: 2}, {Filter: "b", Qos: 1, NoLocal: true, RetainHandling: 2}}}
 			sub.Properties.SubscriptionIdentifier = []int{268435455}
